@@ -90,6 +90,11 @@ ProcClose2 == IsEv("procclose2") /\ E.exc = "" /\ E.exc2 = "IOError" /\ E.delexc
 PrintEv == IsEv("print") /\ IF ~H.open THEN Refused
          ELSE /\ E.r = Len(Text(E.a))
               /\ Ok(With(fs, E.o, [H EXCEPT !.pos = WritePos(H, C) + Len(Text(E.a))]), [disk EXCEPT ![H.path] = Overwrite(@, WritePos(H, @), Text(E.a))], opens, closes)
+Pad5(d) == IF Len(d) >= 5 THEN d ELSE [i \in 1..(5 - Len(d)) |-> 48] \o d
+TextZ(v) == Pad5(Digits(v)) \o <<32>>                            \* "%05li " of a non-negative value
+PrintZ == IsEv("printz") /\ IF ~H.open THEN Refused
+          ELSE /\ E.r = Len(TextZ(E.a))
+               /\ Ok(With(fs, E.o, [H EXCEPT !.pos = WritePos(H, C) + Len(TextZ(E.a))]), [disk EXCEPT ![H.path] = Overwrite(@, WritePos(H, @), TextZ(E.a))], opens, closes)
 RECURSIVE ParseNat(_, _, _)
 ParseNat(c, i, acc) == IF i <= Len(c) /\ c[i] >= 48 /\ c[i] <= 57 THEN ParseNat(c, i + 1, <<acc[1] * 10 + (c[i] - 48), i + 1>>) ELSE acc
 ScanEv == IsEv("scan") /\ IF ~H.open THEN Refused
@@ -98,7 +103,7 @@ ScanEv == IsEv("scan") /\ IF ~H.open THEN Refused
              /\ LET np == IF r[2] <= Len(C) /\ C[r[2]] = 32 THEN r[2] ELSE r[2] - 1 IN      \* the blank after the digits is consumed
                 Ok(With(fs, E.o, [H EXCEPT !.pos = np, !.eof = (np = Len(C)) \/ H.eof]), disk, opens, closes)   \* looking for more white space hits the end
 
-Next == Reset \/ End \/ New \/ Open \/ Write \/ Read \/ Seek \/ BigSeek \/ Tell \/ Eof \/ Flush \/ Close \/ WithBegin \/ Del \/ Destruct \/ Construct \/ FullClose \/ ProcClose2 \/ PrintEv \/ ScanEv
+Next == Reset \/ End \/ New \/ Open \/ Write \/ Read \/ Seek \/ BigSeek \/ Tell \/ Eof \/ Flush \/ Close \/ WithBegin \/ Del \/ Destruct \/ Construct \/ FullClose \/ ProcClose2 \/ PrintEv \/ PrintZ \/ ScanEv
 Spec == Init /\ [][Next]_vars
 Accepted == LET d == TLCGet("stats").diameter IN
             /\ PrintT(<<"TRACE_MATCHED", d - 1, Len(T)>>)
